@@ -7,7 +7,7 @@ from props.C03 import rand_triple, renderings
 from props.C10 import gen_doc
 from props.C17 import rand_entry, render as render_cl, with_oracle
 
-NOISE = [bytes([c]) for c in b" \t\n\r:,|()[]<>!${}=-+~.#/0a"] + [b"\x00", b"\xff", b"\xc3\xa9", b"\n\n", b" -- ", b"  "]
+NOISE = [bytes([c]) for c in b" \t\n\r:,|()[]<>!${}=-+~.#/0a"] + [b"\x00", b"\xff", b"\xc3\xa9", b"\n\n", b" -- ", b"  ", b"\xc2\xa0", b"\xe2\x80\x83", b"\xc2"]
 
 
 def big(rng, alphabet, n):
@@ -69,7 +69,7 @@ def inputs(chk):
         out.append(("hparsed", [rng.choice([b"md5", b"sha1", b"sha256", b"sha512"])], line))
     keep = []
     for op, pre, t in out:
-        if op in ("vparse", "dparse", "aparse", "alist", "hparsed") or not debgen.has_uspace(t):
+        if True:
             if not any(k in t for k in (b"Epoch", b"Revision", b"Relations", b"ABI", b"OS:", b"CPU", b"Filename")) or op not in ("tdoc", "tindex", "tcontrol"):
                 keep.append((op, pre, t))
     return keep
@@ -134,7 +134,7 @@ def run(chk):
     chk.record("concurrent-and-repeated", sub, lines if len(lines) == len(sub) else [""] * len(sub), lambda c, r: True)
     chk.trusted.append("the Go race detector (go build -race) and the scheduler as exercised by 16 goroutines: supporting evidence, not a proof")
     chk.assumptions += ["freedom from data races is a runtime property the model cannot exhibit: it is observed, not proved",
-                        "inputs up to 64 KiB; non-ASCII Unicode space encodings excluded for the deb822-based entry points (ASCII-space model)"]
+                        "inputs up to 64 KiB; Unicode whitespace handled exactly by the executed models (V11, R2u)"]
 
 
 def replay(chk, d):
